@@ -305,7 +305,9 @@ fn fam_batch(tag: &str, out: &mut Vec<Case>) {
                 };
                 let (a2, b2) = (shift(&a, true), shift(&b, false));
                 for v in [vec![a2.clone(), b2.clone()], vec![b2.clone(), a2.clone()], vec![a2.clone(), good.clone(), b2.clone()]] {
-                    if verify(&v, VerifyAction::VerifyOnly, b"ctx").is_ok() { return Err(format!("batch with two invalid members (offsetting d1[{}]) was accepted", k)); }
+                    for action in [VerifyAction::VerifyOnly, VerifyAction::RecoverAndVerify] {
+                        if verify(&v, action, b"ctx").is_ok() { return Err(format!("batch with two invalid members (offsetting d1[{}]) was accepted in {:?}", k, action)); }
+                    }
                 }
             }
             Ok(())
